@@ -241,7 +241,8 @@ func VerifC04DefaultsContainers() {
 func VerifC04DefaultsAllKinds() {
 	t := V3{A: 1, Col: Color(vapi.Int32("tcol")), Flag: vapi.Bool("tflag"), F: 1.5, D: 2.5, U: vapi.Uint32("tu"),
 		Mp: map[string]int32{"k": vapi.Int32("tmp")}, Vs: []string{symStr("tvs", 1)}, Bt: vapi.Int8("tbt"), Sh: vapi.Int16("tsh"),
-		Raw: []int8{vapi.Int8("traw")}, Ub: vapi.Uint8("tub"), Col2: Color(vapi.Int32("tcol2"))}
+		Raw: []int8{vapi.Int8("traw")}, Ub: vapi.Uint8("tub"), Col2: Color(vapi.Int32("tcol2")),
+		Ud: vapi.Uint32("tud"), Usd: vapi.Uint16("tusd"), Ubd: vapi.Uint8("tubd"), Ld: vapi.Int64("tld"), Sd: symStr("tsd", 1)}
 	v := V1{A: symI32("a", false)}
 	vapi.Check(t.ReadFrom(codec.NewReader(encode(&v))) == nil, "defaults: decoding succeeds")
 	vapi.Check(t.A == v.A, "defaults: required member decoded")
@@ -252,6 +253,12 @@ func VerifC04DefaultsAllKinds() {
 	vapi.Check(len(t.Mp) == 0, "defaults: absent optional map on a reused struct")
 	vapi.Check(vapi.And(len(t.Vs) == 0, len(t.Raw) == 0), "defaults: absent optional vectors on a reused struct")
 	vapi.Check(t.Col2 == Color_BLUE, "defaults: absent optional enum with explicit default on a reused struct")
+	vapi.Check(vapi.And(t.Ud == 3000, vapi.And(t.Usd == 7, t.Ubd == 9)), "defaults: absent optional unsigned members take their explicit IDL defaults")
+	vapi.Check(vapi.And(t.Ld == -5, t.Sd == "dflt"), "defaults: absent optional long/string take their explicit IDL defaults")
+	// and on a fresh target
+	var f V3
+	vapi.Check(f.ReadFrom(codec.NewReader(encode(&v))) == nil, "defaults: decoding into a fresh struct succeeds")
+	vapi.Check(vapi.And(f.Ud == 3000, vapi.And(f.Usd == 7, vapi.And(f.Ubd == 9, vapi.And(f.Ld == -5, vapi.And(f.Sd == "dflt", f.Col2 == Color_BLUE))))), "defaults: a fresh struct gets the explicit IDL defaults of absent optionals")
 	vapi.Reach("c04-defaults-allkinds")
 }
 
